@@ -1,9 +1,10 @@
 /* E4/E5 for C17: (a) the built-in hash functions stay in [0, m) -- complete enumeration of keys and table sizes on the float grid;
  * (b) a caller-supplied hash that returns m or more makes the operation abort at once -- every call ordinal of every entry point
- * in every table state (settled / grow pending / shrink pending) x {m, m+1, SIZE_MAX}.  hash.c is unity-#included. */
+ * in every table state (settled / grow pending / shrink pending) x {m, m+1, SIZE_MAX, 2^8+i, 2^16+i, 2^32, 2^32+i, 2^63+i} (i = the in-range index).  hash.c is unity-#included. */
 #define _GNU_SOURCE
 #include "hash.c"
 #include "../engine/shim.h"
+#include <signal.h>
 #include <stdio.h>
 #include <string.h>
 #include <stdarg.h>
@@ -24,17 +25,26 @@ static unsigned long evals, nontriv;
 static double now(void) { struct timespec ts; clock_gettime(CLOCK_MONOTONIC, &ts); return ts.tv_sec + ts.tv_nsec * 1e-9; }
 
 /* ------------------------------------------------------------------ (a) ranges */
-static const size_t MSET[] = { 1, 2, 3, 7, 16, 1000003, 16777215, 16777216, 16777217, 33554431, (size_t)1 << 32, ((size_t)1 << 53) + 1, (size_t)1 << 63, SIZE_MAX };
+static const size_t MSET[] = { 1, 2, 3, 7, 16, 1000003, 16777215, 16777216, 16777217, 33554431, ((size_t)1 << 16), ((size_t)1 << 31), ((size_t)1 << 32) - 1, (size_t)1 << 32, ((size_t)1 << 32) + 1, (size_t)1 << 33, (size_t)3 << 32, ((size_t)1 << 40) + 5, ((size_t)1 << 53) + 1, (size_t)1 << 63, SIZE_MAX };
 #define NMSET ((int)(sizeof MSET / sizeof MSET[0]))
 static size_t worst_k[4]; static float worst_frac;
+/* the evaluation in flight, for the crash path: a built-in hash that traps (division by zero, wild access) ends the process; the signal
+ * handler / sanitizer hook publishes which evaluation it was, the driver replays it and reports the crash as the violation */
+static volatile size_t fl_k, fl_m; static volatile int fl_which;      /* 1 mul, 2 div */
+static char *prog_buf;
+static void publish_inflight(void) { if (prog_buf && fl_which) snprintf(prog_buf, 200, "R %s:%zu:%zu\n", fl_which == 1 ? "mul" : "div", (size_t)fl_k, (size_t)fl_m); }
+static void on_trap(int sig) { publish_inflight(); signal(sig, SIG_DFL); raise(sig); }
+void __asan_on_error(void) { publish_inflight(); }
 static inline void try_mul(size_t k, size_t m)
 {
+    fl_k = k; fl_m = m; fl_which = 1; __asm__ volatile("" : "+r"(k), "+r"(m) : : "memory");      /* the evaluation cannot be scheduled ahead of the marker */
     size_t r = cstl_hash_mul(k, m);
     evals++;
     if (r >= m) { char rp[100]; snprintf(rp, sizeof rp, "mul:%zu:%zu", k, m); violation(rp, "cstl_hash_mul(%zu, %zu) = %zu, which is not below the table size", k, m, r); }
 }
 static inline void try_div(size_t k, size_t m)
 {
+    fl_k = k; fl_m = m; fl_which = 2; __asm__ volatile("" : "+r"(k), "+r"(m) : : "memory");
     size_t r = cstl_hash_div(k, m);
     evals++;
     if (r >= m) { char rp[100]; snprintf(rp, sizeof rp, "div:%zu:%zu", k, m); violation(rp, "cstl_hash_div(%zu, %zu) = %zu, which is not below the table size", k, m, r); }
@@ -107,7 +117,13 @@ static size_t uhash(size_t k, size_t m)
 {
     hcalls++;
     if (bad_at && hcalls > bad_at) calls_after_bad++;
-    if (bad_at && hcalls == bad_at) return bad_kind == 0 ? m : bad_kind == 1 ? m + 1 : SIZE_MAX;
+    if (bad_at && hcalls == bad_at) {
+        size_t r = (k * 7 + 3) % m;       /* the in-range answer: the out-of-range values below agree with it in their low 8/16/32 bits */
+        switch (bad_kind) {
+        case 0: return m; case 1: return m + 1; case 2: return SIZE_MAX;
+        case 3: return ((size_t)1 << 8) + r; case 4: return ((size_t)1 << 16) + r; case 5: return (size_t)1 << 32; case 6: return ((size_t)1 << 32) + r; default: return ((size_t)1 << 63) + r;
+        }
+    }
     return (k * 7 + 3) % m;
 }
 enum { S_SETTLED, S_GROW, S_SHRINK, NSTATES };
@@ -145,6 +161,8 @@ static void do_op(int op)
     }
 }
 static unsigned long badcases, badcases_triggered;
+#define NKINDS 8
+static const char *kindname[] = { "m", "m+1", "SIZE_MAX", "2^8 + the in-range index", "2^16 + the in-range index", "2^32", "2^32 + the in-range index", "2^63 + the in-range index" };
 static void bad_one(int state, int op, int j, int kind, int verbose)
 {
     int ab; char rp[100];
@@ -156,15 +174,14 @@ static void bad_one(int state, int op, int j, int kind, int verbose)
     shim_in_lib = 0;
     bad_at = 0;
     badcases++; evals++;
-    if (verbose) printf("table %s, %s, hash call #%d of the operation returns %s: %s after %d hash calls (%d after the bad one)\n", statename[state], bopname[op], j, kind == 0 ? "m" : kind == 1 ? "m+1" : "SIZE_MAX",
+    if (verbose) printf("table %s, %s, hash call #%d of the operation returns %s: %s after %d hash calls (%d after the bad one)\n", statename[state], bopname[op], j, kindname[kind],
                         ab == 1 ? "abort()" : ab ? "assertion" : "returned", hcalls, calls_after_bad);
     if (hcalls < j) { shim_in_lib++; cstl_hash_clear(&H, NULL); shim_in_lib = 0; return; }           /* the operation makes fewer calls: nothing misbehaved */
     badcases_triggered++; nontriv++;
-    if (ab != 1) violation(rp, "table %s: %s returned although the hash function's call #%d returned %s (a value of m or more must abort the operation)", statename[state], bopname[op], j, kind == 0 ? "m" : kind == 1 ? "m+1" : "SIZE_MAX");
+    if (ab != 1) violation(rp, "table %s: %s returned although the hash function's call #%d returned %s (a value of m or more must abort the operation)", statename[state], bopname[op], j, kindname[kind]);
     else if (calls_after_bad) violation(rp, "table %s: %s consulted the hash function %d more time(s) after it had returned an out-of-range value, before aborting", statename[state], bopname[op], calls_after_bad);
     /* (any access outside the bucket array is an AddressSanitizer report, which ends this process: the driver turns that into the violation) */
 }
-static char *prog_buf;
 #include <fcntl.h>
 #include <unistd.h>
 #include <sys/mman.h>
@@ -176,7 +193,7 @@ static void badhash(void)
         int ab;
         build(st); hcalls = 0; shim_in_lib++; SHIM_CALL(ab, do_op(op)); shim_in_lib = 0; n = hcalls;       /* clean run: how many calls does this operation make here */
         shim_in_lib++; cstl_hash_clear(&H, NULL); shim_in_lib = 0;
-        for (j = 1; j <= n + 1 && nviol < 6; j++) for (kind = 0; kind < 3 && nviol < 6; kind++) {
+        for (j = 1; j <= n + 1 && nviol < 6; j++) for (kind = 0; kind < NKINDS && nviol < 6; kind++) {
             if (prog_buf) snprintf(prog_buf, 4000, "R bad:%d:%d:%d:%d\n", st, op, j, kind);
             bad_one(st, op, j, kind, 0);
         }
@@ -188,6 +205,7 @@ int main(int argc, char **argv)
     int i, cfg = 0, thorough = 0, nshards = 16; const char *replay = NULL, *prop = NULL; double t0 = now();
     setvbuf(stdout, NULL, _IOFBF, 1 << 16);
     shim_watchdog_start();
+    signal(SIGFPE, on_trap); signal(SIGILL, on_trap); signal(SIGBUS, on_trap);
     for (i = 1; i < argc; i++) {
         if (!strcmp(argv[i], "--prop") && i + 1 < argc) prop = argv[++i];
         else if (!strcmp(argv[i], "--config") && i + 1 < argc) cfg = atoi(argv[++i]);
@@ -209,7 +227,7 @@ int main(int argc, char **argv)
     printf("{\"world\":\"hashrange\",\"config\":%d,\"config_desc\":\"%s\",\"property\":\"C17\",\"thorough\":%d,\"evaluations\":%lu,\"nontrivial_states\":%lu,\"exhaustive\":%s,\"closure\":%s,\"wall_s\":%.3f,"
            "\"counters\":{\"bad_hash_cases\":%lu,\"bad_hash_cases_in_which_the_bad_value_was_returned\":%lu,\"largest_fraction_key\":%zu},\"samples\":[\"%s\"],\"violations\":[",
            cfg, cfg < nshards ? thorough ? "built-in hashes: every key below 2^32, one key per single-precision value above (and its neighbours), every single-precision table size in [1,2^64] with the smallest m that rounds to it against the keys of extreme fraction, full product k<2^23 x m<=1024 (one shard of 16)" : "built-in hashes: every key below 2^28, one key per single-precision value above (and its neighbours), every single-precision table size up to 2^27 and every 64th above with the smallest m that rounds to it against the keys of extreme fraction, full product k<2^20 x m<=64 (one shard of 16)"
-                              : "caller-supplied hash returning m, m+1 or SIZE_MAX at every call ordinal of insert/find/erase/rehash/foreach/resize/shrink_to_fit in settled, grow-pending and shrink-pending tables",
+                              : "caller-supplied hash returning m, m+1, SIZE_MAX or an out-of-range value that agrees with the in-range index in its low 8/16/32/63 bits at every call ordinal of insert/find/erase/rehash/foreach/resize/shrink_to_fit in settled, grow-pending and shrink-pending tables",
            thorough, evals, nontriv, nviol ? "false" : "true", nviol ? "false" : "true", now() - t0, badcases, badcases_triggered, worst_k[0],
            cfg < nshards ? "cstl_hash_mul(k, m) for k = shard range and m in {16, 1000003, SIZE_MAX}; e.g. cstl_hash_mul(987, 33554431)" : "table grow pending, erase(member), hash call #2 returns m+1 -> must abort with no further hash call");
     for (i = 0; i < nviol; i++) { const char *s; printf("%s{\"replay\":\"%s\",\"ops\":\"%s\",\"message\":\"", i ? "," : "", viols[i], viols[i]); for (s = violmsg[i]; *s; s++) { if (*s == '"' || *s == '\\') putchar('\\'); if ((unsigned char)*s >= 0x20) putchar(*s); } printf("\"}"); }
